@@ -237,7 +237,7 @@ pub fn malformed_query(rng: &mut Rng, spec: &AppSpec, qid: &str) -> (Value, &'st
 /// (query, expected number of responses, kind label)
 pub fn gen_batch(rng: &mut Rng, spec: &AppSpec, n: usize, p_malformed: f64, prefix: &str) -> Vec<(Value, usize, String)> {
     let grid = has_plugin(spec, |p| matches!(p, InputPlugin::GridSearch));
-    (0..n)
+    let mut batch: Vec<(Value, usize, String)> = (0..n)
         .map(|i| {
             let qid = format!("{prefix}{i}");
             if rng.chance(p_malformed) {
@@ -250,7 +250,22 @@ pub fn gen_batch(rng: &mut Rng, spec: &AppSpec, n: usize, p_malformed: f64, pref
                 (valid_query(rng, spec, &qid), 1, "valid".to_string())
             }
         })
-        .collect()
+        .collect();
+    // the same query may be submitted more than once (verbatim, same id): every copy is a query of its own. copies are
+    // placed next to the original, `parallelism` positions away (same bin under round-robin) or anywhere
+    if !batch.is_empty() && rng.chance(0.3) {
+        for _ in 0..rng.urange(1, 4) {
+            let i = rng.below(batch.len());
+            let copy = batch[i].clone();
+            let at = match rng.below(3) {
+                0 => i + 1,
+                1 => (i + spec.parallelism).min(batch.len()),
+                _ => rng.below(batch.len() + 1),
+            };
+            batch.insert(at, copy);
+        }
+    }
+    batch
 }
 
 // ------------------------------------------------------------------------------------------
